@@ -42,7 +42,7 @@ static unsigned char vf_durable[NFS * B];	/* filesystem device: stable storage *
 static int vf_unsynced;				/* writes since the last flush */
 #endif
 static int vf_fs_writes, vf_fs_oob_writes, vf_j_writes, vf_syncs, vf_writes_after_sync;
-static int vf_j_oob_reads;
+static int vf_j_oob_reads, vf_j_range_viol;
 #ifdef VF_WRITE_FAULT
 static int vf_fail_write_at = -1, vf_failed_writes;
 #endif
@@ -73,7 +73,8 @@ static struct vf_slot *vf_slot_of(struct buffer_head *bh)
 /* STUB: jbd2_journal_bmap is the identity (external journal, or an internal journal seen through its block map) */
 int jbd2_journal_bmap(journal_t *journal, unsigned long block, unsigned long long *phys)
 {
-	(void) journal;
+	if (block < journal->j_first || block >= journal->j_last)
+		vf_j_range_viol++;	/* jread() for a block outside the circular log [j_first, j_last) */
 	*phys = block;
 	return 0;
 }
@@ -216,6 +217,43 @@ void fatal_error(e2fsck_t ctx, const char *msg)
 }
 #endif
 
+/* ------------------------------------------------------------------ checksum T-stubs */
+#if FEAT_CSUM
+static int vf_csum_partial;	/* a checksum call that did not cover exactly one whole journal block */
+/* which journal block does this buffer hold? (descriptor/commit/revoke: slot 0, logged data block: slot 1) */
+static __u32 stub_word_of(unsigned char const *buf)
+{
+	unsigned long long k = ((const char *) buf == VF_BH(0)->b_data) ? vf_s0.blocknr : vf_s1.blocknr;
+	unsigned p;
+	__u32 r = 0;
+	for (p = 0; p < NJ; p++)
+		if (p == k)
+			r = VF_CSUM_WORD(p);
+	return r;
+}
+#endif
+#if FEAT_CSUM == 1
+/* STUB: ext2fs_crc32_be (checksum v1: running crc over descriptor and data blocks) is the T-stub crc' = rotl(crc,1) ^ word(block), word(block) = one symbolic 32-bit value per journal block: order- and seed-sensitive, and "the commit block carries the right value" is a free predicate */
+__u32 ext2fs_crc32_be(__u32 crc, unsigned char const *buf, size_t len)
+{
+	if (len != B)
+		vf_csum_partial++;
+	return ((crc << 1) | (crc >> 31)) ^ stub_word_of(buf);
+}
+#endif
+#if FEAT_CSUM >= 2
+#define VF_SEED 0x5eed0001u
+/* STUB: ext2fs_crc32c_le (checksum v2/v3) over a whole journal block returns that block's symbolic word (T-stub: validity of every stored checksum is a free predicate per block); over the 4-byte sequence prefix of a data-block checksum it passes the seed through */
+__u32 ext2fs_crc32c_le(__u32 crc, unsigned char const *buf, size_t len)
+{
+	if (len == 4)
+		return crc;
+	if (len != B)
+		vf_csum_partial++;
+	return stub_word_of(buf);
+}
+#endif
+
 /* ------------------------------------------------------------------ journal constructor */
 static journal_t vf_journal;
 static journal_superblock_t vf_jsb;
@@ -260,4 +298,7 @@ static void vf_make_journal(__u32 s_first, __u32 s_sequence, __u32 s_start)
 	vf_journal.j_tail = s_start;
 	vf_journal.j_first = s_first;
 	vf_journal.j_last = NJ;
+#if FEAT_CSUM >= 2
+	vf_journal.j_csum_seed = VF_SEED;
+#endif
 }
